@@ -126,6 +126,13 @@ pub open spec fn comps_roundtrip(s: Seq<Comp>) -> bool {
     forall|k: int| 0 <= k < s.len() ==> (#[trigger] s[k] is Normal || s[k] is ParentDir)
 }
 
+pub assume_specification[ <std::path::Path as std::borrow::ToOwned>::to_owned ](p: &std::path::Path) -> (r: std::path::PathBuf)
+    ensures pb_comps(&r) == path_comps(p);
+pub assume_specification[ std::path::Path::to_path_buf ](p: &std::path::Path) -> (r: std::path::PathBuf)
+    ensures pb_comps(&r) == path_comps(p);
+pub assume_specification[ <std::path::PathBuf as Clone>::clone ](p: &std::path::PathBuf) -> (r: std::path::PathBuf)
+    ensures r == *p;
+
 // ---- Path::parent ----
 pub open spec fn parent_comps<'a>(s: Seq<Comp<'a>>) -> Option<Seq<Comp<'a>>> {
     if s.len() == 0 || s.last() is RootDir || s.last() is Prefix { None } else { Some(s.drop_last()) }
